@@ -127,9 +127,18 @@ def observe(case):
         env = core.impl_env({'PYTHONHASHSEED': str(1 + (k * 7919) % 1000)})
         res = subprocess.run(['/venv/bin/python', '-W', 'ignore', '-m', 'harness.impl.c04'], input=payload, env=env,
                              capture_output=True, text=True, cwd=str(core.ROOT), timeout=300)
-        if res.returncode:
+        reply = None
+        if res.returncode < 0:      # killed by a signal: an abort at interpreter teardown after the complete answer was printed is not a failure
+            try:
+                reply = json.loads(res.stdout.strip().splitlines()[-1])
+            except (IndexError, ValueError):
+                reply = None
+            if not (isinstance(reply, dict) and 'registry' in reply and 'obs' in reply):
+                reply = None
+        if res.returncode and reply is None:
             return {'error': f'action {k} {action}: {res.stderr.strip().splitlines()[-1] if res.stderr.strip() else res.returncode}'}
-        reply = json.loads(res.stdout.strip().splitlines()[-1])
+        if reply is None:
+            reply = json.loads(res.stdout.strip().splitlines()[-1])
         registry = reply['registry']
         steps.append(reply['obs'])
     return {'steps': steps, 'registry': registry}
